@@ -116,6 +116,17 @@ fn sources() -> Vec<String> {
         "zsign((0.0, 1))".to_string(),
         "zsign((-0.0, 1))".to_string(),
     ];
+    if !cfg!(miri) {
+        // builtins on arguments large enough for an implementation to split the work: thousands of elements with equal
+        // extremes of both numeric types at many positions, and a needle list whose first element is found and whose
+        // last element is of a type the function rejects (the sequential answer is the type error)
+        v.push("min(big)".to_string());
+        v.push("(max(big), typeof(min(big)), typeof(max(big)))".to_string());
+        v.push("contains_any(hay, needles)".to_string());
+        v.push("contains(big, 1.0) && contains_any(hay, (5, 7, 4099))".to_string());
+    }
+    // a user function that uses the library itself (and its builtins) while other threads resolve names never seen before
+    v.push("reenter(a) + a".to_string());
     if cfg!(miri) {
         // one of the two many-builtin expressions is enough for the interpreter, and the wide tuple covers wide nodes
         v.retain(|s| !s.starts_with("len(str::trim(s))") && !s.starts_with("twice(a + 1); "));
@@ -155,6 +166,35 @@ fn make_ctx(variant: usize) -> Ctx {
         Function::new(|v: &Value| {
             spin(300);
             Ok(v.clone())
+        }),
+    )
+    .unwrap();
+    if !cfg!(miri) {
+        let big: Vec<Value> = (0..6000i64)
+            .map(|i| match i % 14 {
+                0 => Value::Int(1),
+                7 => Value::Float(1.0),
+                3 => Value::Float(9_999_999.0),
+                10 => Value::Int(9_999_999),
+                _ if i % 2 == 0 => Value::Int(10 + i),
+                _ => Value::Float(10.5 + i as f64),
+            })
+            .collect();
+        c.set_value("big".into(), Value::Tuple(big)).unwrap();
+        c.set_value("hay".into(), Value::Tuple((0..2100i64).map(Value::Int).collect())).unwrap();
+        let mut needles: Vec<Value> = (0..2100i64).map(|i| Value::Int(if i == 0 { 10 } else { 5000 + i })).collect();
+        needles.push(Value::Empty);
+        c.set_value("needles".into(), Value::Tuple(needles)).unwrap();
+    }
+    c.set_function(
+        "reenter".into(),
+        Function::new(|v: &Value| {
+            let inner = evalexpr::eval_int("max(1, 2) + len(\"ab\") + min(7, 9)")?;
+            spin(100);
+            match v {
+                Value::Int(i) => Ok(Value::Int(i + inner)),
+                other => Ok(other.clone()),
+            }
         }),
     )
     .unwrap();
@@ -240,6 +280,7 @@ fn main() {
         let hot = srcs.iter().position(|s| s.starts_with("(1, 2, 3")).expect("the literal lookup table is one of the sources");
         let slow_tree = srcs.iter().position(|s| s.starts_with("slow(a) + slow(c)")).expect("the slow-function expression is one of the sources");
         let zsign0 = srcs.iter().position(|s| s == "zsign(0.0)").expect("the sign-of-zero expressions are among the sources");
+        let reenter_tree = srcs.iter().position(|s| s == "reenter(a) + a").expect("the re-entrant function expression is one of the sources");
         // a shared tree that introduces identifiers no context and no tree of this process has used before; every
         // thread evaluates it on a context of its own, all at the same moment
         let fresh_name = format!("fresh_{}_{}_introduced_by_all_threads_at_once", seed, round);
@@ -297,6 +338,29 @@ fn main() {
                         mismatches.fetch_add(1, Ordering::Relaxed);
                         out.push(format!("MISMATCH thread {} round {} tree {} on the long-lived context: expected {} got {}", tid, round, ti, expected[ti][0], got));
                         break;
+                    }
+                }
+                // some threads call a function that re-enters the library, the others resolve function names the process has
+                // never seen (whatever the library remembers about names is being written while it is being read)
+                for k in 0..(if cfg!(miri) { 2 } else { 12 }) {
+                    if tid % 2 == 0 {
+                        let got = format!("{:?}", trees[reenter_tree].eval_with_context(&*persistent));
+                        total.fetch_add(1, Ordering::Relaxed);
+                        if got != expected[reenter_tree][0] {
+                            mismatches.fetch_add(1, Ordering::Relaxed);
+                            out.push(format!("MISMATCH thread {} round {} re-entrant function on the long-lived context: expected {} got {}", tid, round, expected[reenter_tree][0], got));
+                            break;
+                        }
+                    } else {
+                        let name = format!("never_seen_{}_{}_{}_{}", seed, round, tid, k);
+                        let got = format!("{:?}", evalexpr::eval_with_context(&format!("{}(1)", name), &*persistent));
+                        let want = format!("{:?}", Err::<Value, EvalexprError>(EvalexprError::FunctionIdentifierNotFound(name.clone())));
+                        total.fetch_add(1, Ordering::Relaxed);
+                        if got != want {
+                            mismatches.fetch_add(1, Ordering::Relaxed);
+                            out.push(format!("MISMATCH thread {} round {} unknown function {}: expected {} got {}", tid, round, name, want, got));
+                            break;
+                        }
                     }
                 }
                 // different threads evaluate different strings through the string-level entry points at the same time
@@ -377,6 +441,22 @@ fn main() {
                 }
                 out
             }));
+        }
+        // a worker that never comes back is a result that differs from the sequential one: if no evaluation at all finishes
+        // for a long time while workers are still running, report it (progress-based, not a deadline for the round)
+        let stall_limit = std::time::Duration::from_secs(if cfg!(miri) { 900 } else { 180 });
+        let mut last = (total_evals.load(Ordering::SeqCst), std::time::Instant::now());
+        while !handles.iter().all(|h| h.is_finished()) {
+            std::thread::sleep(std::time::Duration::from_millis(if cfg!(miri) { 1 } else { 20 }));
+            let now = total_evals.load(Ordering::SeqCst);
+            if now != last.0 {
+                last = (now, std::time::Instant::now());
+            } else if last.1.elapsed() > stall_limit {
+                let stuck = handles.iter().filter(|h| !h.is_finished()).count();
+                println!("MISMATCH round {}: {} worker thread(s) never returned; no evaluation finished for {} s (deadlock)", round, stuck, stall_limit.as_secs());
+                println!("{{\"rounds\": {}, \"threads\": {}, \"evaluations\": {}, \"mismatches\": 1, \"distinct_interleavings\": {}, \"slow_context_events\": {}, \"interleaving_samples\": [], \"expected_sample\": \"deadlock\"}}", rounds, threads, now, signatures.len(), clock.load(Ordering::SeqCst));
+                std::process::exit(1);
+            }
         }
         for h in handles {
             match h.join() {
